@@ -409,6 +409,11 @@ func (c *Ctx) mustPass(fn *ssa.Function, sinks []ssa.Instruction, match func(fac
 				out = append(out, SinkVerdict{s, true, ""})
 				continue
 			}
+			// second look, path-sensitively (flag variables, conditions tested twice)
+			if ps := psReach(fn, []*ssa.BasicBlock{fn.Blocks[0]}, func(from *ssa.BasicBlock, succ int) bool { return succ < 2 && cutSet[from][succ] }); !ps[b] {
+				out = append(out, SinkVerdict{s, true, ""})
+				continue
+			}
 			out = append(out, SinkVerdict{s, false, c.witness(fn, parent, b)})
 		} else {
 			out = append(out, SinkVerdict{s, true, ""})
